@@ -99,7 +99,7 @@ Qed.
 (** the pattern of escape_id, as it is in the source now, with its entry point, accepts exactly [is_bare] *)
 Lemma head_set c :
   set_mem false [(95, 95); (97, 122); (65, 90)] c = ((65 <=? c) && (c <=? 90)) || (c =? 95) || ((97 <=? c) && (c <=? 122)).
-Proof. unfold set_mem, in_ranges. cbn [existsb fst snd xorb]. lia. Qed.
+Proof. unfold set_mem. rewrite xorb_false_l. unfold in_ranges. cbn [existsb fst snd]. lia. Qed.
 
 Lemma hi_ranges_low hi c : word_hi_ok hi = true -> c < 128 -> in_ranges c hi = false.
 Proof.
@@ -110,8 +110,8 @@ Qed.
 Lemma tail_set hi c : word_hi_ok hi = true ->
   set_mem false (py_word_ranges hi) c = is_word (fun x => in_ranges x hi) c || (c =? 95).
 Proof.
-  intro Hhi. unfold set_mem, py_word_ranges. unfold in_ranges at 1. rewrite existsb_app. fold (in_ranges c hi).
-  cbn [existsb fst snd xorb]. unfold is_word. destruct (c <? 128) eqn:E.
+  intro Hhi. unfold set_mem, py_word_ranges. rewrite xorb_false_l. unfold in_ranges at 1. rewrite existsb_app. fold (in_ranges c hi).
+  cbn [existsb fst snd]. unfold is_word. destruct (c <? 128) eqn:E.
   - rewrite (hi_ranges_low hi c Hhi) by lia. lia.
   - destruct (in_ranges c hi); lia.
 Qed.
@@ -145,12 +145,13 @@ Definition delim_of (b : bool) : N := if b then 96 else 34.
 
 Lemma quoted_raw_d_96 s : quoted_raw_d 96 s = quoted_raw s.
 Proof.
-  induction s as [|c r IH] using (well_founded_induction (wf_inverse_image _ nat _ (@length N) Wf_nat.lt_wf)).
-  - reflexivity.
-  - cbn [quoted_raw_d quoted_raw]. destruct (c =? 96); [reflexivity|]. destruct (c =? 92).
-    + destruct r as [|d r']; [reflexivity|]. destruct (existsb (N.eqb d) escape_chars); [|reflexivity].
-      rewrite IH by (cbn [length]; lia). reflexivity.
-    + rewrite IH by (cbn [length]; lia). reflexivity.
+  assert (H : forall k (s : name), (length s <= k)%nat -> quoted_raw_d 96 s = quoted_raw s).
+  { induction k as [|k IH]; intros [|c r] Hl; try reflexivity; cbn [length] in Hl; [lia|].
+    cbn [quoted_raw_d quoted_raw]. destruct (c =? 96); [reflexivity|]. destruct (c =? 92).
+    - destruct r as [|d r']; [reflexivity|]. destruct (existsb (N.eqb d) escape_chars); [|reflexivity].
+      cbn [length] in Hl. rewrite IH by lia. reflexivity.
+    - rewrite IH by lia. reflexivity. }
+  apply (H (length s)). lia.
 Qed.
 
 (** what escape_str writes for one BMP character, by shape *)
@@ -223,6 +224,14 @@ Proof.
   - apply andb_true_iff in H as [Hc Hn]. rewrite <- app_assoc, quoted_raw_d_char, (IH Hn) by lia. reflexivity.
 Qed.
 
+Lemma quoted_raw_escaped_id (n rest : name) : bmp n = true ->
+  quoted_raw (esc_str true n ++ 96 :: rest) = Some (esc_str true n, rest).
+Proof. intro H. rewrite <- quoted_raw_d_96. exact (quoted_raw_d_escaped true n rest H). Qed.
+
+Lemma quoted_raw_escaped_str (n rest : name) : bmp n = true ->
+  quoted_raw_d 34 (esc_str false n ++ 34 :: rest) = Some (esc_str false n, rest).
+Proof. intro H. exact (quoted_raw_d_escaped false n rest H). Qed.
+
 Lemma unescape_string_id_char b f c (X : name) : c < 65536 ->
   unescape_string (S f) (esc_str_char b c ++ X) = option_map (cons c) (unescape_string f X).
 Proof.
@@ -252,7 +261,7 @@ Proof.
   - destruct Hd as [Hd|[(-> & _)|(-> & _)]]; [|reflexivity|reflexivity].
     cbn [In] in Hd. repeat (destruct Hd as [Hd|Hd]; [injection Hd as <- _; reflexivity|]). contradiction.
   - cbn [forallb]. replace (c <? 65536) with true by lia. reflexivity.
-  - cbn [forallb]. rewrite andb_true_r. cbn [N.ltb N.compare Pos.compare Pos.compare_cont andb].
+  - cbn [forallb]. change (92 <? 65536) with true. change (117 <? 65536) with true. cbn [andb].
     apply forallb_forall. intros x Hx. pose proof (hex_fixed_up_range 4 c) as HF. rewrite Forall_forall in HF.
     specialize (HF x Hx). lia.
 Qed.
@@ -295,7 +304,7 @@ Section IdLexer.
         rewrite (esc_str_small true n Hsafe). reflexivity. }
       rewrite Hu. rewrite (utf16_small n Hsafe).
       unfold Lexer.lex_identifier, lex_backtick. cbn [app N.eqb Pos.eqb]. rewrite <- app_assoc. cbn [app].
-      subst body. rewrite <- quoted_raw_d_96. rewrite (quoted_raw_d_escaped true n (D :: rest) Hsafe).
+      subst body. rewrite (quoted_raw_escaped_id n (D :: rest) Hsafe).
       rewrite (unescape_string_esc true n Hsafe) by lia. reflexivity.
   Qed.
 
@@ -308,7 +317,7 @@ Section IdLexer.
     { apply utf16_small. cbn [forallb]. rewrite forallb_app. subst body. fold (bmp (esc_str false s)).
       rewrite (esc_str_small false s Hs). reflexivity. }
     rewrite Hu. rewrite (utf16_small s Hs). unfold lex_string. cbn [app N.eqb Pos.eqb orb]. rewrite <- app_assoc. cbn [app].
-    subst body. rewrite (quoted_raw_d_escaped false s rest Hs).
+    subst body. rewrite (quoted_raw_escaped_str s rest Hs).
     rewrite (unescape_string_esc false s Hs) by lia. reflexivity.
   Qed.
 
